@@ -8,7 +8,7 @@ CORR_MODULES = ["Sched.WorkerCorr"]
 PREFIX = "C31"
 CASE_TYPE = "C31_case"
 HARNESS = "timing"
-KNOWN = {1: "C31-negative-sleep"}
+KNOWN = {}
 RULE = ("one case = one whole-stack simulation scenario (real worker loop, simulated clock/timer/network) drawn from one "
         "PRNG: writers with deadline/lifespan, writes with current/old/future timestamps, clock advances, blocked "
         "writes; distinct = distinct scenario line; non-trivial = the worker requested at least 3 timer delays and at "
@@ -18,10 +18,13 @@ TRUSTED = ["theories/Sched/WorkerModel.v is a hand transcription of the worker l
            "remove_stale_writer_samples (discovery_methods.rs) and Duration -> core::time::Duration (time.rs)",
            "harness/src/bin/timing.rs: simulated timer rounds a requested delay of 0 up to 1 ns (the simulated clock "
            "stands still while the worker runs)"]
-ASSUMPTIONS = ["the bound is claimed outside the recorded class C31-negative-sleep (some time_until_* value is negative "
-               "when the sleep is computed); inside the class the real worker asks for a delay of about 1.8e19 s",
-               "timers fire when due (the simulated timer is exact); the blocked-write bound assumes the worker is not "
-               "inside the recorded class"]
+ASSUMPTIONS = ["timers fire when due (the simulated timer is exact)",
+               "the simulated clock stands still while the worker runs, so the harness rounds a requested delay of 0 up to "
+               "1 ns: an item exactly at its boundary (time_until = 0 while the check uses a strict >) and an instance several "
+               "periods behind make the real worker ask for delay(0) repeatedly until the clock moves; with a real clock this "
+               "is a short busy loop, in the simulation it would be a livelock",
+               "the blocked-write bound is stated for a worker whose iterations are at most one poke period apart (first "
+               "clause)"]
 
 MS = 1000000
 NS = 1000000000
@@ -44,7 +47,7 @@ def gen_sim(r, big):
         ws.append((dl, ls))
         ops.append(("W", dl, ls))
     now = T0
-    oldok = r.random() < 0.35  # scenarios that may enter the known class
+    oldok = r.random() < 0.35  # instances several periods behind (regression of the fixed C31-negative-sleep)
     for _ in range(r.randint(3, 14 if big else 9)):
         k = r.random()
         if k < 0.45:
@@ -121,7 +124,8 @@ def gen(r, tier):
 
 def corpus():
     return [
-        # the witness of C31-negative-sleep: a write whose timestamp is more than two periods old
+        # regression (fixed C31-negative-sleep): a write whose timestamp is ten periods old; the worker
+        # catches up one period per iteration (delay 0) and keeps announcing
         ("sim", 200, 1, (("W", 100 * MS, None), ("adv", NS), ("w", 0, 1, T0), ("adv", 2 * NS), ("odm", 0))),
         # exactly due values (delay 0) and the one-period-old timestamp are fine
         ("sim", 200, 1, (("W", 100 * MS, None), ("w", 0, 1, None), ("adv", 100 * MS), ("adv", 250 * MS), ("odm", 0))),
@@ -300,6 +304,8 @@ def distribution(cases, outs):
             ds = [ns for _, l, _, _ in so for _, ns in l]
             if any(ns > POKE for ns in ds):
                 k += "/oversleep"
+            if c[0] == "sim" and any(o[0] == "w" and o[3] is not None and o[3] < T0 for o in c[3]):
+                k += "/far-behind"
             if any(ns == 0 for ns in ds):
                 k += "/zero-delay"
         d[k] = d.get(k, 0) + 1
@@ -308,22 +314,18 @@ def distribution(cases, outs):
 
 MANIFEST = {
     "text": ("Machine-checked proof (Coq) over a model of the worker loop: the six time_until_* expressions over an abstract "
-             "snapshot of all participants, next_task_time as the minimum under the derived (sec, nanosec) order and the "
-             "conversion `sec as u64`. Proved for all snapshots and all six clock readings: the minimum never exceeds the "
-             "poke period; the requested delay is at most 50 ms whenever the minimum is not negative, in particular "
-             "whenever no deadline, lease or lifespan item is overdue at the reading; a negative minimum becomes a delay of "
-             "more than 1.8e19 s (witness) — recorded finding C31-negative-sleep. A blocked write whose worker wakes at "
-             "least once per poke period returns Timeout no later than max_blocking_time + 50 ms and not before "
-             "max_blocking_time. The model is tied to the code by whole-stack "
-             "simulation scenarios (real worker loop with simulated clock, timer and network): every delay requested from "
-             "the timer, every deadline-missed listener call and the result/latency of blocked writes are compared with "
-             "the model inside Coq, and the 50 ms / timeout bounds are checked on the implementation's own observations "
-             "(also on multi-participant scenarios with discovery, reader deadlines and lease expiry, where only the "
-             "oracle is applied)."),
+             "snapshot of all participants, next_task_time as the minimum under the derived (sec, nanosec) order clamped at "
+             "zero, and the conversion `sec as u64`. Proved for all well-formed snapshots — including items already overdue "
+             "when the sleep is computed — and all six clock readings: the requested delay is between 0 and 50 ms. A blocked "
+             "write whose worker wakes at least once per poke period returns Timeout no later than max_blocking_time + 50 ms "
+             "and not before max_blocking_time. The model is tied to the code by whole-stack simulation scenarios (real "
+             "worker loop with simulated clock, timer and network): every delay requested from the timer, every "
+             "deadline-missed listener call and the result/latency of blocked writes are compared with the model inside "
+             "Coq, and the 50 ms / timeout bounds are checked on the implementation's own observations (also on "
+             "multi-participant scenarios with discovery, reader deadlines and lease expiry, where only the oracle is "
+             "applied). The scenarios of the fixed finding C31-negative-sleep are kept as regression cases."),
     "note": ("Trusted: Coq kernel + vm_compute; hand model WorkerModel.v (checked against the code by the correspondence "
-             "run); harness timing.rs (simulated timer rounds delay 0 up to 1 ns) and comparator. Axioms: none. "
-             "Known finding C31-negative-sleep: inside the class (some time_until_* negative when the sleep is computed) "
-             "the bound is false on the real code: the worker sleeps ~forever, announcements/heartbeats stop and a "
-             "blocked write never times out."),
-    "technique": "Coq proof (order/min lemmas, lia) + whole-stack deterministic simulation compared in Coq",
+             "run); harness timing.rs (simulated timer rounds delay 0 up to 1 ns, see assumptions) and comparator. "
+             "Axioms: none."),
+    "technique": "Coq proof (order/min/max lemmas, lia) + whole-stack deterministic simulation compared in Coq",
 }
